@@ -4,7 +4,7 @@
  *  id 12 b_static        static short, initialised
  *  id 13 function-local static int (initialised 7)
  *  id 14 member of a global object with a constructor (dynamic initialisation, inline storage): 31
- *  id 15 b_big_data[69999]   int[70000] initialised (280 kB of .data), last element
+ *  id 15 b_big_data[C36_N_DATA - 1]   int[70000] initialised (280 kB of .data), last element
  *  id 16 static data member of a class: 41
  *  id 17 variable in an anonymous namespace: 43
  *  id 18 *b_ptr, a global pointer initialised with the address of another global (b_target = 47)
@@ -27,7 +27,13 @@ struct WithCtor {
 };
 static int thirty() { return 30; }
 WithCtor b_obj(thirty());
-int b_big_data[70000] = {1, 2, 3};
+int b_big_data[C36_N_DATA] = {1, 2, 3};
+static int b_mid_bss[C36_N_MID];
+static long* b_fs()
+{
+  static long fs_arr[C36_N_FS];
+  return fs_arr;
+}
 struct Counter {
   static int count;
 };
@@ -49,7 +55,7 @@ long long c36_get_b(int id)
     case 12: return b_static;
     case 13: return b_local();
     case 14: return b_obj.x;
-    case 15: return b_big_data[69999];
+    case 15: return b_big_data[C36_N_DATA - 1];
     case 16: return Counter::count;
     case 17: return b_anon;
     case 18: return *b_ptr;
@@ -66,11 +72,26 @@ void c36_set_b(int id, long long v)
     case 12: b_static = static_cast<short>(v); break;
     case 13: b_local() = static_cast<int>(v); break;
     case 14: b_obj.x = static_cast<int>(v); break;
-    case 15: b_big_data[69999] = static_cast<int>(v); break;
+    case 15: b_big_data[C36_N_DATA - 1] = static_cast<int>(v); break;
     case 16: Counter::count = static_cast<int>(v); break;
     case 17: b_anon = static_cast<int>(v); break;
     case 18: *b_ptr = static_cast<int>(v); break;
     case 19: c36_bcast_var = v; break;
     default: break;
   }
+}
+
+long long c36_aget_b(int arr, long idx)
+{
+  return arr == 2 ? b_mid_bss[idx] : arr == 3 ? b_fs()[idx] : b_big_data[idx];
+}
+
+void c36_aset_b(int arr, long idx, long long v)
+{
+  if (arr == 2)
+    b_mid_bss[idx] = static_cast<int>(v);
+  else if (arr == 3)
+    b_fs()[idx] = static_cast<long>(v);
+  else
+    b_big_data[idx] = static_cast<int>(v);
 }
